@@ -71,8 +71,9 @@ class Node:
 
 
 class Gen:
-    def __init__(self, rng, families=None, max_rows=8, null_rate=0.2, flat=False, allow=None, nary_intersect=False, shuffle_decl=False):
+    def __init__(self, rng, families=None, max_rows=8, null_rate=0.2, flat=False, allow=None, nary_intersect=False, shuffle_decl=False, nonnull_decl=False):
         self.nary_intersect = nary_intersect
+        self.nonnull_decl = nonnull_decl      # declare some measures non-nullable (their columns then hold no null)
         self.shuffle_decl = shuffle_decl      # declare the components of some operands in another order
         self.r = rng
         self.allow = set(allow) if allow else None
@@ -122,9 +123,12 @@ class Gen:
             keys = set()
             for _ in range(nrows):
                 keys.add(tuple(r.choice(ID_INT) if t == 'Integer' else r.choice(ID_STR) for _, t in ids))
-            rows = [tuple(list(key) + [self.value(t) for _, t in meas]) for key in sorted(keys)]
+            nn = [m for m, _ in meas if self.nonnull_decl and r.random() < 0.4]
+            rows = [tuple(list(key) + [self.value(t, nullable=(m not in nn)) for m, t in meas]) for key in sorted(keys)]
             r.shuffle(rows)
             env['DS_%d' % k] = {'ids': list(ids), 'meas': list(meas), 'rows': rows}
+            if nn:
+                env['DS_%d' % k]['nn'] = nn
             if self.shuffle_decl and r.random() < 0.5:
                 decl = [c for c, _ in list(ids) + list(meas)]
                 r.shuffle(decl)
@@ -606,7 +610,7 @@ def structures(env):
     dss = []
     for n, d in env.items():
         comps = [{'name': i, 'type': t, 'role': 'Identifier', 'nullable': False} for i, t in d['ids']]
-        comps += [{'name': m, 'type': t, 'role': 'Measure', 'nullable': True} for m, t in d['meas']]
+        comps += [{'name': m, 'type': t, 'role': 'Measure', 'nullable': m not in (d.get('nn') or ())} for m, t in d['meas']]
         if d.get('decl'):        # same components, declared in another order
             comps.sort(key=lambda c: d['decl'].index(c['name']))
         dss.append({'name': n, 'DataStructure': comps})
